@@ -227,20 +227,31 @@ def decl_tokens(d, variant="canonical"):
             toks += [n, "="] + value_tokens(v) + [","]
         toks.append("}")
     elif kind == "impl":
-        _, proto, typ, as_name, fields, signals = d
+        _, proto, typ, as_name, fields, signals = d[:6]
+        layout = d[6] if len(d) > 6 else "fields-first"
         toks += ["impl", proto, "for", typ]
         if as_name is not None:
             if variant != "noas":
                 toks.append("as")
             toks.append(as_name)
         toks.append("{")
-        for k, v in fields:
-            toks += [k, ":"] + value_tokens(v) + [","]
+        ftoks = [[k, ":"] + value_tokens(v) + [","] for k, v in fields]
+        stoks = []
         for sname, sfields in signals:
-            toks += ["signal", sname, "{"]
+            t = ["signal", sname, "{"]
             for k, v in sfields:
-                toks += [k, ":"] + value_tokens(v) + [","]
-            toks += ["}", ","]
+                t += [k, ":"] + value_tokens(v) + [","]
+            stoks.append(t + ["}", ","])
+        if layout == "signals-first":
+            parts = stoks + ftoks
+        elif layout == "interleaved":
+            parts = []
+            for i in range(max(len(ftoks), len(stoks))):
+                parts += stoks[i : i + 1] + ftoks[i : i + 1]
+        else:
+            parts = ftoks + stoks
+        for part in parts:
+            toks += part
         toks.append("}")
     elif kind == "service":
         _, name, sid, methods = d
